@@ -319,7 +319,10 @@ def rectangular(V, tol=1e-11):
             * ``localV``: Diagonal unitary sitting sandwiched by Ti's and the T's
     """
     localV = V
-    (nsize, _) = localV.shape
+    (nsize, msize) = localV.shape
+
+    if nsize != msize:
+        raise ValueError("The input matrix must be square")
 
     if not np.allclose(V @ V.conj().T, np.identity(nsize), atol=tol, rtol=0):
         raise ValueError("The input matrix is not unitary")
@@ -513,7 +516,10 @@ def rectangular_MZ(V, tol=1e-11):
         * ``localV``: Diagonal unitary sitting sandwiched by ``mach_zehnder_inv``'s and the ``mach_zehnder``'s
     """
     localV = V
-    (nsize, _) = localV.shape
+    (nsize, msize) = localV.shape
+
+    if nsize != msize:
+        raise ValueError("The input matrix must be square")
 
     if not np.allclose(V @ V.conj().T, np.identity(nsize), atol=tol, rtol=0):
         raise ValueError("The input matrix is not unitary")
@@ -619,7 +625,10 @@ def triangular(V, tol=1e-11):
             * ``localV``: Diagonal unitary applied at the beginning of circuit
     """
     localV = V
-    (nsize, _) = localV.shape
+    (nsize, msize) = localV.shape
+
+    if nsize != msize:
+        raise ValueError("The input matrix must be square")
 
     if not np.allclose(V @ V.conj().T, np.identity(nsize), atol=tol, rtol=0):
         raise ValueError("The input matrix is not unitary")
